@@ -155,7 +155,8 @@ def S():
 def parent_names_entry(run, twin=None):
     """the table a scope body starts from (language reference 4.2.2), at every identifier k:
     function scope: module binding if k is declared global there; nothing if k is a local of the function (never an outer or builtin
-    binding); otherwise what the enclosing scope's `names` give;  class scope: what the enclosing scope's `names` give;  no parent: empty"""
+    binding); otherwise what the enclosing scope's `names` give;  class scope: module binding if k is declared global in the class body, else
+    what the enclosing scope's `names` give;  no parent: empty"""
     run.trust(T_PARAM)
     run.concretise = scope_witness
     Sm = S()
@@ -261,8 +262,10 @@ def parent_names_entry(run, twin=None):
             if kind == 'no-parent':
                 prove('empty', type(r) is dict and not r, path=p)
                 return
-            if kind == 'class':
-                prove('class-body-sees-the-enclosing-names', r == ('merged', (outer,)), clause='class bodies see all outer names', path=p)
+            if kind == 'class' and isinstance(r, tuple) and r[0] == 'merged':
+                # a view of the enclosing table: right exactly when the class declares nothing global at KEY
+                prove('class-body-sees-the-enclosing-names', z3.And(z3.BoolVal(r == ('merged', (outer,))), z3.Not(fl.glob)),
+                      clause='a class body sees all outer names - unless it declares the name global', path=p)
                 return
             # function: read the result at KEY
             has, val = z3.BoolVal(False), None
@@ -295,9 +298,14 @@ def parent_names_entry(run, twin=None):
                 prove('global-declared-binding-shadows-the-builtin', z3.Implies(z3.And(has, fl.gtab_has), src_is2(val, 'names bound through global declarations')), path=p)
                 return
             want_module = fl.glob
-            want_has = z3.If(fl.glob, fl.top_has, z3.If(fl.local, z3.BoolVal(False), fl.outer_has))
-            if twin:
+            if kind == 'class':
+                # a class body: global-declared -> module; everything else from the enclosing scope (its own bindings are layered on top
+                # by `names`, they do not hide the outer ones from the entry table)
                 want_has = z3.If(fl.glob, fl.top_has, fl.outer_has)
+            else:
+                want_has = z3.If(fl.glob, fl.top_has, z3.If(fl.local, z3.BoolVal(False), fl.outer_has))
+            if twin:
+                want_has = z3.If(fl.glob, fl.top_has, fl.outer_has) if kind != 'class' else fl.outer_has
             prove('k-visible-iff-the-scope-rule-says-so', has == want_has,
                   clause='global-declared -> module; local -> not inherited (never an outer or builtin binding); else enclosing scope', path=p)
             def src_is(v, label):
